@@ -80,7 +80,24 @@ def gen_T10():
     un = ast.unparse(_cls_def(st, 'doNick'))
     i_del, i_set = un.find('del self.nicksToHostmasks[oldNick]'), un.find('self.nicksToHostmasks[newNick] = newHostmask')
     need(0 <= i_del < i_set, 'IrcState.doNick: expected `del nicksToHostmasks[oldNick]` before `nicksToHostmasks[newNick] = ...`')
+    # every IrcState / ChannelState owns its containers: no mutable default argument, fresh objects built in __init__
+    ini = _cls_def(st, '__init__')
+    for d in ini.args.defaults + [x for x in ini.args.kw_defaults if x is not None]:
+        need(isinstance(d, ast.Constant) and (d.value is None or isinstance(d.value, (int, str, bool, float))),
+             'IrcState.__init__ has a mutable / computed default argument: ' + ast.unparse(d))
+    ui = ast.unparse(ini)
+    for name, ctor in (('nicksToHostmasks', 'ircutils.IrcDict()'), ('channels', 'ircutils.IrcDict()')):
+        need(re.search(r'if %s is None:\s+%s = %s' % (name, name, re.escape(ctor)), ui) is not None,
+             'IrcState.__init__ no longer builds a fresh %s when none is given' % name)
+    need('self.channels = channels' in ui and 'self.nicksToHostmasks = nicksToHostmasks' in ui, 'IrcState.__init__ container assignment changed')
+    cini = _cls_def(cs, '__init__')
+    need(len(cini.args.args) == 1 and not cini.args.defaults, 'ChannelState.__init__ takes arguments')
+    uc = ast.unparse(cini)
+    for fld in ('ops', 'bans', 'users', 'voices', 'halfops'):
+        need('self.%s = ircutils.IrcSet()' % fld in uc, 'ChannelState.__init__: %s is not a fresh IrcSet()' % fld)
+    need('self.modes = {}' in uc, 'ChannelState.__init__: modes is not a fresh dict')
     irc = find_class(t, 'Irc')
+    need('self.state = IrcState()' in ast.unparse(_cls_def(irc, '__init__')), 'Irc.__init__ no longer builds its own IrcState()')
     # Irc.isChannel hands ISUPPORT CHANTYPES / CHANNELLEN down to ircutils.isChannel (whose body is pinned in T03)
     need(re.sub(r'\s+', ' ', ast.unparse(ast.Module(body=_cls_def(irc, 'isChannel').body[1:], type_ignores=[]))) ==
          "kw = {} chantypes = self.state.supported.get('chantypes') if chantypes is not None: kw['chantypes'] = chantypes "
